@@ -73,8 +73,10 @@ for _name, _idx in (("first", "0"), ("last", "-1")):
     contract(
         f"liquid2.builtin.filters.array:{_name}",
         props=["C19", "C02", "C01"],
-        params={"obj": Union(ListOf("any"), ListOf("int"), Str, Int, NoneT)},
+        params={"obj": Union(ListOf("any"), ListOf("int"), Str, Int, NoneT, DictOf("str", "any"))},
         post=[f"implies(isinstance(obj, list) and len(obj) > 0, result == obj[{_idx}])",
+              # an empty hash has no first / last item: nil, not an exception
+              "implies(isinstance(obj, dict) and len(obj) == 0, result is None)",
               "implies(isinstance(obj, list) and len(obj) == 0, result is None)",
               "implies(isinstance(obj, (str, int)) or obj is None, result is None)"],
         raises={},
